@@ -40,6 +40,7 @@ var regressCases = []regressCase{
 	{"forward-from-older-of-two-writers", "li t3, 195\nandi t3, t0, -3\nsh t3, -58, s1\n", map[string]int32{"t0": -116, "s1": 256}},
 	{"slow-older-writer-lands-last", "lw t1, 28(s1)\naddi t1, t0, 22\nadd t1, t1, t1\n", map[string]int32{"t0": 20, "s1": 256}},
 	{"parked-reader-then-younger-writer", "lw t5, 0(zero)\nadd t6, t5, t1\naddi t0, zero, 3\nadd t1, t0, zero\n", map[string]int32{"t1": 100}},
+	{"branch-to-next-instruction", "li s3, 3\nL7:\nlb t1, -18(s2)\nbnez t1, L8\nL8:\naddi s3, s3, -1\nbnez s3, L7\n", map[string]int32{"s2": 672}},
 	{"F3-load-add-ret", "lw t0, 0(s0)\nlw t1, 64(s0)\nadd t2, t0, t1\nret\n", map[string]int32{"s0": 128}},
 }
 
